@@ -78,18 +78,19 @@ type voteRec struct {
 }
 
 type obs struct {
-	Height   int64
-	Props    []propRec           // all records of the proposal id over the five stores
-	Votes    map[string]voteRec  // validator address text -> record
-	FundsI   map[string]*big.Int // funder address text -> amount
-	FundsT   *big.Int            // nil if the total record does not exist
-	Bal      map[string]*big.Int // address text -> OLT balance
-	FeeTotal *big.Int            // sum of all fee pool records
-	Gov      map[string]string   // governance option records
-	ValPower map[string]int64    // validator address text -> power in the validator record
-	Staking  string              // digest of the stake / validator-status key families
-	TotalOLT *big.Int
-	QStore   string // store holding the record of the scripted histories' second proposal ("" = none)
+	Height    int64
+	Props     []propRec           // all records of the proposal id over the five stores
+	Votes     map[string]voteRec  // validator address text -> record
+	FundsI    map[string]*big.Int // funder address text -> amount
+	FundsT    *big.Int            // nil if the total record does not exist
+	Bal       map[string]*big.Int // address text -> OLT balance
+	FeeTotal  *big.Int            // sum of all fee pool records
+	Gov       map[string]string   // governance option records
+	ValPower  map[string]int64    // validator address text -> power in the validator record
+	ValActive map[string]bool     // validator address text -> active status record (es__vss_)
+	Staking   string              // digest of the stake / validator-status key families
+	TotalOLT  *big.Int
+	QStore    string // store holding the record of the scripted histories' second proposal ("" = none)
 }
 
 var propStores = []string{"propActive", "propPassed", "propFailed", "propFinalizeFailed", "propFinalized"}
@@ -104,7 +105,7 @@ func amountOf(v []byte) (*big.Int, bool) {
 
 func observe(height int64, dump []harness.KV) (*obs, error) {
 	o := &obs{Height: height, Votes: map[string]voteRec{}, FundsI: map[string]*big.Int{}, Bal: map[string]*big.Int{},
-		FeeTotal: new(big.Int), Gov: map[string]string{}, ValPower: map[string]int64{}}
+		FeeTotal: new(big.Int), Gov: map[string]string{}, ValPower: map[string]int64{}, ValActive: map[string]bool{}}
 	id := string(PropID)
 	stk := sha256.New()
 	for _, kv := range dump {
@@ -181,7 +182,18 @@ func observe(height int64, dump []harness.KV) (*obs, error) {
 			o.ValPower[v.Address] = v.Power
 			stk.Write(kv.K)
 			stk.Write(kv.V)
-		case strings.HasPrefix(k, "st__"), strings.HasPrefix(k, "es__vss_"), strings.HasPrefix(k, "es__ssvk_"), strings.HasPrefix(k, "purged"):
+		case strings.HasPrefix(k, "es__vss_"):
+			var r struct {
+				IsActive bool `json:"isActive"`
+			}
+			if json.Unmarshal(kv.V, &r) == nil {
+				o.ValActive[k[len("es__vss_"):]] = r.IsActive
+			}
+			stk.Write(kv.K)
+			stk.Write([]byte{0})
+			stk.Write(kv.V)
+			stk.Write([]byte{0})
+		case strings.HasPrefix(k, "st__"), strings.HasPrefix(k, "es__ssvk_"), strings.HasPrefix(k, "purged"):
 			stk.Write(kv.K)
 			stk.Write([]byte{0})
 			stk.Write(kv.V)
@@ -551,7 +563,9 @@ func (m *model) step(h int64, ops []op, res []txOutcome, prev, cur *obs) {
 		case opStake:
 			if acc {
 				v := w.Vals[o.Actor]
-				add(addr(v.Stake), new(big.Int).Neg(units(o.Amount)))
+				if o.Amount > 0 { // an unstake (negative amount) moves nothing out of the balance
+					add(addr(v.Stake), new(big.Int).Neg(units(o.Amount)))
+				}
 				m.fire("validator-set-change")
 			}
 		case opGov:
@@ -601,6 +615,14 @@ func (m *model) step(h int64, ops []op, res []txOutcome, prev, cur *obs) {
 			if pw, ok := prev.ValPower[v]; !(ok && pw == rec.Power) {
 				if pw2, ok2 := cur.ValPower[v]; !(ok2 && pw2 == rec.Power) {
 					m.violate("snapshot-when-voting-began", "PROPOSAL_FUND", "snapshot-entry-not-a-validator", fmt.Sprintf("snapshot entry %s power %d does not match the validator records", v, rec.Power))
+					return
+				}
+			}
+			// "the validators snapshotted when voting began" are validators: an entry whose status record says
+			// "not active" on BOTH sides of this block belongs to somebody who had lost its seat before voting began
+			if pa, pk := prev.ValActive[v]; pk && !pa {
+				if ca, ck := cur.ValActive[v]; ck && !ca {
+					m.violate("snapshot-when-voting-began", "PROPOSAL_FUND", "snapshot-entry-not-an-active-validator", fmt.Sprintf("snapshot entry %s (power %d) has no active status: it was not a validator when voting began", v, rec.Power))
 					return
 				}
 			}
